@@ -8,6 +8,7 @@
 (*       (imp: files the text imports; entry: build entry a configuration text names), events: <<e>>, shownH: <<[f, d]>>, shownF: <<[f, d]>>,            *)
 (*       lastRound: <<f>>]                                                                                           *)
 (* e  = [k \in {"open","change","close","req"}, f, t, kind, line, ch, status \in {"ok","error","dead","timeout"},   *)
+(*       nch, tfirst (didChange: number of entries, first entry), k = "nonfile": a message about a non-file document follows, *)
 (*       panic, nonnull, ranges: <<[f, r]>>, hasToks, toks, ans, hasFresh, fresh, freshStatus, pubs: <<[f, r]>>]     *)
 (* Events with hasFresh are the final probes: the same request was sent, in the same order, to the fresh server.    *)
 EXTENDS Lsp, Json, IOUtils
@@ -34,12 +35,18 @@ Coded == {DevRec[i].dev : i \in 1..Len(DevRec)} \cap AllDeviations
 NoDiag(g) == "none"
 
 Step1(r, disk, s, e) ==
-  CASE e.k \in {"open", "change"} -> LET b == [s.buf EXCEPT ![e.f] = e.t] IN
-                                      Insert(s, disk, e.f, e.t, OkNow(r, disk, b), MainNow(r, disk, b), {}, NoDiag, Coded)
+  CASE e.k = "open" -> LET b == [s.buf EXCEPT ![e.f] = e.t] IN
+                       Insert(s, disk, e.f, e.t, OkNow(r, disk, b), MainNow(r, disk, b), {}, NoDiag, Coded)
+    (* didChange with e.nch entries: e.tfirst is the first, e.t the last (= the client's buffer afterwards) *)
+    [] e.k = "change" /\ e.nch = 0 -> IF EmptyChangeKills(Coded) THEN [s EXCEPT !.death = "DidChangeFirstEntryWins"] ELSE s      \* death pending: seen at the next request
+    [] e.k = "change" -> LET ts == ChangeText(<<e.tfirst, e.t>>, Coded)
+                             b == [s.buf EXCEPT ![e.f] = ts] IN
+                         InsertC(s, disk, e.f, ts, e.t, OkNow(r, disk, b), MainNow(r, disk, b), {}, NoDiag, Coded)
+    [] e.k = "nonfile" -> IF NonFileKillsMsg(e.kind, s.has, Coded) THEN [s EXCEPT !.death = "NonFileUriPanics"] ELSE s
     [] e.k = "close" -> LET b == [s.buf EXCEPT ![e.f] = NoText] IN
                         Close(s, disk, e.f, OkNow(r, disk, b), MainNow(r, disk, b), {}, NoDiag, Coded)
     [] e.k = "req" -> IF e.status \in {"dead", "timeout"} THEN Die(s, e.panic)
-                      ELSE IF e.kind = "rename" /\ e.nonnull /\ ~e.hasFresh THEN Renamed(s, Coded) ELSE s
+                      ELSE IF e.kind = "rename" /\ e.nonnull /\ ~e.hasFresh THEN Renamed([s EXCEPT !.death = ""], Coded) ELSE [s EXCEPT !.death = ""]
     [] OTHER -> s
 
 BadRanges(r, disk, buf, rs) ==
@@ -51,19 +58,24 @@ JudgeReq(r, disk, s, e) ==
       pred  == IF known /\ InTree(r, s, e.f) THEN DeathOf(e.kind, LtOf(r, s.an[e.f]), e.line, e.ch, Coded) ELSE ""
       where == e.kind \o " at " \o ToString(e.line) \o ":" \o ToString(e.ch) \o " in " \o e.f
       total == IF e.status \in {"ok", "error"}
-                 THEN IF pred # "" THEN <<V(r.id, "drift", pred, "model predicts a crash, the server answered: " \o where)>> ELSE <<>>
+                 THEN IF s.death # "" THEN <<V(r.id, "drift", s.death, "model predicts that the previous message killed the server, it answered: " \o where)>>
+                      ELSE IF pred # "" THEN <<V(r.id, "drift", pred, "model predicts a crash, the server answered: " \o where)>> ELSE <<>>
                ELSE IF pred # "" THEN <<V(r.id, "deviation", pred, where \o " -> " \o e.status \o " " \o e.panic)>>
+               ELSE IF s.death # "" THEN <<V(r.id, "deviation", s.death, "the server died on the message before " \o where \o ": " \o e.panic)>>
                ELSE <<V(r.id, "violation", "", "Total: request not answered (" \o e.status \o " " \o e.panic \o "): " \o where)>>
-      br    == IF e.status = "ok" THEN BadRanges(r, disk, s.buf, e.ranges) ELSE {}
+      br    == IF e.status = "ok" THEN BadRanges(r, disk, s.cli, e.ranges) ELSE {}
       wf1   == IF br = {} THEN <<>>
+               ELSE IF LagWitness(s) THEN <<V(r.id, "deviation", "DidChangeFirstEntryWins", "range outside the client's document after a didChange with several entries: " \o where)>>
                ELSE IF CloseWitness(s) THEN <<V(r.id, "deviation", "CloseDoesNotReanalyse", "range outside the document after didClose: " \o where)>>
                ELSE <<V(r.id, "violation", "", "WellFormed: returned range outside its document: " \o where \o " " \o ToString(e.ranges[CHOOSE i \in br : TRUE]))>>
-      wf2   == IF e.status = "ok" /\ e.hasToks /\ known /\ ~TokensOK(LtOf(r, Eff(disk, s.buf)[e.f]), e.toks)
-                 THEN IF CloseWitness(s) THEN <<V(r.id, "deviation", "CloseDoesNotReanalyse", "semantic tokens of a closed buffer")>>
+      wf2   == IF e.status = "ok" /\ e.hasToks /\ known /\ ~TokensOK(LtOf(r, Eff(disk, s.cli)[e.f]), e.toks)
+                 THEN IF LagWitness(s) THEN <<V(r.id, "deviation", "DidChangeFirstEntryWins", "semantic tokens of another text than the client's")>>
+                      ELSE IF CloseWitness(s) THEN <<V(r.id, "deviation", "CloseDoesNotReanalyse", "semantic tokens of a closed buffer")>>
                       ELSE <<V(r.id, "violation", "", "WellFormed: semantic tokens unsorted, overlapping, empty or outside their line in " \o e.f)>>
                ELSE <<>>
       fresh == IF ~e.hasFresh \/ (e.status = e.freshStatus /\ e.ans = e.fresh) \/ e.status \in {"dead", "timeout"} THEN <<>>
                ELSE IF CloseWitness(s) THEN <<V(r.id, "deviation", "CloseDoesNotReanalyse", "after didClose " \o where \o " differs from a fresh server")>>
+               ELSE IF LagWitness(s) THEN <<V(r.id, "deviation", "DidChangeFirstEntryWins", "after a didChange with several entries " \o where \o " differs from a fresh server")>>
                ELSE IF TaintWitness(s) THEN <<V(r.id, "deviation", "RenameTaintsCache", "after an unapplied rename " \o where \o " differs from a fresh server")>>
                ELSE <<V(r.id, "violation", "", "Fresh: reply differs from a fresh server given the final buffers: " \o where)>>
   IN total \o wf1 \o wf2 \o fresh
@@ -84,12 +96,13 @@ Run(r, disk, i, s, acc) ==
 
 Shown(sq) == [f \in {sq[i].f : i \in 1..Len(sq)} |-> sq[CHOOSE i \in 1..Len(sq) : sq[i].f = f].d]
 JudgeShown(r, s) ==
-  IF ~s.alive \/ ~SomeOpen(s.buf) THEN <<>>        \* with no open buffer a fresh server shows nothing: unspecified
+  IF ~s.alive \/ ~SomeOpen(s.cli) THEN <<>>        \* with no open buffer a fresh server shows nothing: unspecified
   ELSE LET h == Shown(r.shownH)
            f == Shown(r.shownF)
            diff == {g \in DOMAIN h : h[g] # f[g]} IN
        IF diff = {} THEN <<>>
        ELSE IF CloseWitness(s) THEN <<V(r.id, "deviation", "CloseDoesNotReanalyse", "diagnostics shown after didClose differ from a fresh server")>>
+       ELSE IF LagWitness(s) THEN <<V(r.id, "deviation", "DidChangeFirstEntryWins", "diagnostics shown after a didChange with several entries differ from a fresh server")>>
        ELSE IF \A g \in diff : ~InTree(r, s, g) /\ f[g] = "[]"        \* the file is not part of the analysed tree any more
          THEN <<V(r.id, "deviation", "StaleDiagnosticsForDroppedFile", "diagnostics of a file that left the project are never cleared")>>
        ELSE <<V(r.id, "violation", "", "Fresh: diagnostics last published differ from a fresh server given the final buffers")>>
